@@ -13,7 +13,7 @@ def _pl(gid, entry, define, bound, canaries=1, timeout=900, entryfn=None, extra=
                  assumes=['<= 3 holders (the caller and two others)', '<= 2 waits per call followed', 'other processes change the pool only through the API (environment keeps I-POOL)'])
 GROUPS += [
     _pl('C07.O2.acquire', 'h_acquire', 'H_ACQUIRE', 'arbitrary holdings of the caller and one other process, capacity <= 255, any request; environment re-draws the other holding (and may preempt the caller) at every wait', canaries=2, extra=['CMV_ONE_OTHER']),
-    _pl('C07.O3.preempt', 'h_acquire', 'H_PREEMPT', 'as acquire, with the preemption loop over one potential victim of arbitrary priority; one wait per call followed', canaries=2, extra=['CMV_ONE_OTHER', 'CMV_MAX_WAITS=1u']),
+    _pl('C07.O3.preempt', 'h_acquire', 'H_PREEMPT', 'as acquire, with the preemption loop over one potential victim of arbitrary priority; one wait per call followed, during which somebody else may change the caller\'s priority', canaries=2, extra=['CMV_ONE_OTHER', 'CMV_MAX_WAITS=1u', 'CMV_PRIO_CHANGES']),
     _pl('C07.O3.preempt.w2', 'h_acquire', 'H_PREEMPT', 'as C07.O3.preempt with two waits per call followed', canaries=2, extra=['CMV_ONE_OTHER'], tier='thorough', timeout=3000),
     # ('C07.O2.acquire.3' / 'C07.O3.preempt.3' - three processes - are NOT registered: neither query finished in 3000 s)
     _pl('C07.O4.release', 'h_release', 'H_RELEASE', 'arbitrary holdings, any amount <= the caller holding'),
